@@ -134,3 +134,72 @@ Example C20_example_state_spaces :
   check (Pown_gnet false) (states (Pown_gnet false)) = false /\ check (Pown_cache false) (states (Pown_cache false)) = false /\
   check (Pown_doh true) (states (Pown_doh true)) = false.
 Proof. vm_compute. repeat split. Qed.
+
+(* ------------------------------------------------------------------ round 4: fault paths and pooled OBJECTS
+   [protocols4] = the stream reader ReadMsgFromTCP with failing header / body reads (two pool buffers + the message),
+   the UDP upstream's TCP fallback with failing legs (two pooled messages), the hand-over of the reply of the reuse
+   exchange against the caller's cancellation, the header-only reply of makeEmptyRespM (two pooled messages and their
+   pooled Question objects), and the prefetch goroutine that outlives the handler of a cache hit (it owns a copy of the
+   question made before it starts) — each as the code is.  Objects are pool buffers AND sync.Pool structs (Msg, Question);
+   the environment recycles every released one. *)
+Theorem C20_fault_paths_and_objects_safe : forall (P : proto) (s : mstate),
+  In P protocols4 -> reach P s -> viol s = 0.
+Proof. exact protocols4_safe. Qed.
+Print Assumptions C20_fault_paths_and_objects_safe.
+
+(* ... and each of them is load-bearing: the variant that releases the body buffer in the read-error branch on top of the
+   deferred release double-releases it as soon as a body read fails (schedule: header read, body read fails, early release,
+   [another request takes the buffer,] deferred release) *)
+Theorem C20_stream_read_error_double_release_refuted :
+  (exists s, own_run (Pown4_sread true) (own_init (Pown4_sread true)) (own4_sched 1 2) = Some s /\ reach (Pown4_sread true) s /\ viol s = 3) /\
+  (exists s, own_run (Pown4_sread true) (own_init (Pown4_sread true)) (own4_sched 1 3) = Some s /\ reach (Pown4_sread true) s /\ viol s = 3).
+Proof. exact own4_sread_double_release_refuted. Qed.
+Print Assumptions C20_stream_read_error_double_release_refuted.
+
+(* returning the truncated UDP reply when the TCP leg fails — after ReleaseMsg(r) (variant 1) or with a deferred
+   ReleaseMsg(r) (variant 2) — hands the caller a released message: use after release, or (another request took it) an
+   access to that request's message *)
+Theorem C20_fallback_returns_released_refuted :
+  (exists s, own_run (Pown4_fallback 1) (own_init (Pown4_fallback 1)) (own4_sched 3 2) = Some s /\ reach (Pown4_fallback 1) s /\ viol s = 1) /\
+  (exists s, own_run (Pown4_fallback 1) (own_init (Pown4_fallback 1)) (own4_sched 3 4) = Some s /\ reach (Pown4_fallback 1) s /\ viol s = 2) /\
+  (exists s, own_run (Pown4_fallback 2) (own_init (Pown4_fallback 2)) (own4_sched 4 2) = Some s /\ reach (Pown4_fallback 2) s /\ viol s = 1) /\
+  (exists s, own_run (Pown4_fallback 2) (own_init (Pown4_fallback 2)) (own4_sched 4 4) = Some s /\ reach (Pown4_fallback 2) s /\ viol s = 2).
+Proof. exact own4_fallback_returns_released_refuted. Qed.
+Print Assumptions C20_fallback_returns_released_refuted.
+
+(* a worker that releases the reply "when the caller's context is done" releases a message the caller owns: schedule
+   reply handed over and received; the caller's context ends; the worker's epilogue *)
+Theorem C20_reuse_reply_release_on_done_refuted :
+  exists s, own_run (Pown4_reuse_reply true) (own_init (Pown4_reuse_reply true)) (own4_sched 6 1) = Some s /\
+            reach (Pown4_reuse_reply true) s /\ viol s = 3.
+Proof. exact own4_reuse_reply_release_refuted. Qed.
+Print Assumptions C20_reuse_reply_release_on_done_refuted.
+
+(* a header-only reply that references the query's Question instead of a copy: the Question is released with both messages *)
+Theorem C20_emptyresp_shared_question_refuted :
+  exists s, own_run (Pown4_emptyresp true) (own_init (Pown4_emptyresp true)) (own4_sched 8 0) = Some s /\
+            reach (Pown4_emptyresp true) s /\ viol s = 3.
+Proof. exact own4_emptyresp_shared_question_refuted. Qed.
+Print Assumptions C20_emptyresp_shared_question_refuted.
+
+(* a prefetch goroutine that makes its copy of the question itself ("off the hot path") reads the handler's question after
+   the handler's deferred ReleaseQuestion: schedule hit, go, handler returns, [another request takes the Question,] copy *)
+Theorem C20_prefetch_lazy_copy_refuted :
+  (exists s, own_run (Pown4_prefetch true) (own_init (Pown4_prefetch true)) (own4_sched 10 1) = Some s /\
+             reach (Pown4_prefetch true) s /\ viol s = 1) /\
+  (exists s, own_run (Pown4_prefetch true) (own_init (Pown4_prefetch true)) (own4_sched 10 2) = Some s /\
+             reach (Pown4_prefetch true) s /\ viol s = 2).
+Proof. exact own4_prefetch_lazy_copy_refuted. Qed.
+Print Assumptions C20_prefetch_lazy_copy_refuted.
+
+(* non-vacuity: the named schedules run to completion on the code as it is, the state spaces are not trivial, and the
+   certificate check rejects every variant *)
+Example C20_example_round4 :
+  map (own4_verdict 0) [0;1;2;3] = [Some 0; Some 0; Some 0; Some 0] /\
+  map (own4_verdict 2) [0;1;2;3;4] = [Some 0; Some 0; Some 0; Some 0; Some 0] /\
+  map (own4_verdict 5) [0;1;2] = [Some 0; Some 0; Some 0] /\
+  map (own4_verdict 7) [0;1] = [Some 0; Some 0] /\
+  map (own4_verdict 9) [0;1;2] = [Some 0; Some 0; Some 0] /\
+  map (fun P => 30 <? length (states P)) protocols4 = [true; true; true; true; true] /\
+  map (fun n => check (own4_proto n) (states (own4_proto n))) [1;3;4;6;8;10] = [false; false; false; false; false; false].
+Proof. vm_compute. repeat split. Qed.
